@@ -199,6 +199,7 @@ def lean_check(pid, gen_modules=(), clean=False, leanchecker=False):
     with LeanLock():
         if clean:
             lake(["clean"])
+        subprocess.run([sys.executable, os.path.join(VERIF, "tools", "gen_root.py")], check=True)
         rc, log = lake(["build", mod, "driver"])
         res["log"] = log[-6000:]
         thms, nex = prop_theorems(pid)
